@@ -557,7 +557,7 @@ package stree
 //@   ensures  [C01,C04] members: forall j int :: {callarg(yield, j)} old(ncalls(yield)) <= j && j < ncalls(yield) ==> rank(t.compare, callarg(yield, j)) in t.elems && rank(t.compare, callarg(yield, j)) >= rank(t.compare, key) && callarg(yield, j) == t.vals[rank(t.compare, callarg(yield, j))]
 //@   ensures  [C01,C04] ascending: forall a int, b int :: {callarg(yield, a), callarg(yield, b)} old(ncalls(yield)) <= a && a < b && b < ncalls(yield) ==> rank(t.compare, callarg(yield, a)) < rank(t.compare, callarg(yield, b))
 //@   ensures  [C01,C04] first: ncalls(yield) > old(ncalls(yield)) ==> forall k int :: {k in t.elems} k in t.elems && k >= rank(t.compare, key) ==> k >= rank(t.compare, callarg(yield, old(ncalls(yield))))
-//@   ensures  [C01,C04] none: ncalls(yield) == old(ncalls(yield)) ==> forall k int :: {k in t.elems} k in t.elems ==> k < rank(t.compare, key)  - 5
+//@   ensures  [C01,C04] none: ncalls(yield) == old(ncalls(yield)) ==> forall k int :: {k in t.elems} k in t.elems ==> k < rank(t.compare, key)
 //@   ensures  [C01,C04] count: ncalls(yield) >= old(ncalls(yield))
 //@   ensures  [C01,C04] went: forall j int :: {callret(yield, j)} old(ncalls(yield)) <= j && j < ncalls(yield) - 1 ==> callret(yield, j)
 //@   modifies calls(yield)
